@@ -1921,7 +1921,7 @@ def _run(ctx, rng):
         raise RuntimeError('stream dispatch-builtin did not produce a single GetManagedObjects call whose reply '
                            'cannot be built: the property values meant to be unmarshallable are not stored any more')
     # objects unexported while a call is outstanding: the Deferred fires afterwards
-    n = ctx.scale(quick=160, thorough=2500)
+    n = ctx.scale(quick=150, thorough=1800)
     pairs = [gen_unexport_deferred(rng) for _ in range(n)]
     run_batch(ctx, 'dispatch-unexport-deferred', [p[0] for p in pairs])
     ctx.stat('Deferred fired after its object was unexported (exercised)', sum(p[1] for p in pairs))
@@ -1929,13 +1929,13 @@ def _run(ctx, rng):
         raise RuntimeError('stream dispatch-unexport-deferred did not fire a single Deferred after its object was unexported')
     # calls to org.freedesktop.DBus.Properties and the built-in interfaces on objects with properties, in histories
     # with export / unexport / assignment: the dispatcher composed with C17's model (harness/c10_props.py)
-    n = ctx.scale(quick=260, thorough=4000)
+    n = ctx.scale(quick=240, thorough=2800)
     ncalls = PR.run_stream(ctx, 'dispatch-properties', [PR.gen_case(rng) for _ in range(n)])
     if not ncalls:
         raise RuntimeError('stream dispatch-properties made no call')
     # classes that share a base class, one of them misdeclared (its export raises), in one process: the library's
     # per-class caches persist across the exports of a scenario - every first use of a class must be right
-    n = ctx.scale(quick=160, thorough=2500)
+    n = ctx.scale(quick=150, thorough=1800)
     specs = [gen_shared_base(rng) for _ in range(n)]
     run_batch(ctx, 'dispatch-shared-base', specs)
     nbad = sum(1 for sp in specs if sp['ops'] and sp['ops'][0]['op'] == 'export' and sp['ops'][0]['cls'] == 1)
